@@ -79,6 +79,9 @@ def _opaque_table():
         "trend2": ("o", lambda: PolynomialTrendForecaster(degree=2)),
         "naive_drift": ("o", lambda: NaiveForecaster(strategy="drift")),
         "naive_seasonal": ("o", lambda: NaiveForecaster(strategy="last", sp=2)),
+        # seasonal means over windows that are not a whole number of seasons
+        "naive_seasonal_mean": ("o", lambda: NaiveForecaster(strategy="mean", sp=3)),
+        "naive_seasonal_mean_w": ("o", lambda: NaiveForecaster(strategy="mean", sp=4, window_length=7)),
         "red_recursive": ("o", red("recursive")),
         "red_direct": ("r", red("direct")),
         "red_multioutput": ("r", red("multioutput")),
